@@ -66,20 +66,32 @@ def regenerate_gen():
     return rc == 0, out
 
 
+TIE_OF = {'C02': ['C01'], 'C03': ['C09'], 'C04': ['C01'], 'C07': ['C05'], 'C11': ['C05', 'C06'],
+          'C14': ['C05'], 'C16': ['C05', 'C06'], 'C17': ['C17', 'C05', 'C09', 'C10'], 'C15': ['C01']}
+
+
+def prop_modules(prop):
+    """Lean modules holding the obligations of a property: its theorem file and the translator-tie files"""
+    mods = []
+    if os.path.exists(os.path.join(LEAN, 'Pearl', 'Props', f'{prop}.lean')):
+        mods.append(f'Pearl.Props.{prop}')
+    for t in TIE_OF.get(prop, [prop]):
+        if os.path.exists(os.path.join(LEAN, 'Pearl', 'Tie', f'{t}.lean')):
+            mods.append(f'Pearl.Tie.{t}')
+    return mods
+
+
 def build_lean(prop):
-    mod = f'Pearl.Props.{prop}'
-    have_props = os.path.exists(os.path.join(LEAN, 'Pearl', 'Props', f'{prop}.lean'))
-    targets = ['pearl-model'] + ([mod] if have_props else [])
-    rc, out = sh(['lake', 'build'] + targets, cwd=LEAN, timeout=3000)
-    return rc == 0, out, have_props
+    mods = prop_modules(prop)
+    rc, out = sh(['lake', 'build', 'pearl-model'] + mods, cwd=LEAN, timeout=3000)
+    return rc == 0, out, bool(mods)
 
 
-def props_theorems(prop):
-    path = os.path.join(LEAN, 'Pearl', 'Props', f'{prop}.lean')
+def module_theorems(mod):
+    path = os.path.join(LEAN, *mod.split('.')) + '.lean'
     if not os.path.exists(path):
         return []
-    src = open(path).read()
-    src_nc = strip_lean_comments(src)
+    src_nc = strip_lean_comments(open(path).read())
     names = []
     ns = []
     for line in src_nc.splitlines():
@@ -96,6 +108,13 @@ def props_theorems(prop):
             n = m.group(1)
             full = '.'.join(ns + [n]) if not n.startswith('_root_.') else n[len('_root_.'):]
             names.append(full)
+    return names
+
+
+def props_theorems(prop):
+    names = []
+    for mod in prop_modules(prop):
+        names += module_theorems(mod)
     return names
 
 
@@ -130,7 +149,7 @@ FORBIDDEN = re.compile(r'\b(sorry|admit|native_decide|implemented_by|bv_decide)\
 def import_closure(prop):
     """files of this project in the import closure of Props/<prop>.lean"""
     seen = []
-    todo = [f'Pearl.Props.{prop}']
+    todo = list(prop_modules(prop))
     while todo:
         m = todo.pop()
         if m in seen:
@@ -163,7 +182,8 @@ def audit(prop):
     d = scratch_dir()
     f = os.path.join(d, f'Audit{prop}.lean')
     with open(f, 'w') as fh:
-        fh.write(f'import Pearl.Props.{prop}\n')
+        for mod in prop_modules(prop):
+            fh.write(f'import {mod}\n')
         for n in names:
             fh.write(f'#print axioms {n}\n')
     rc, out = sh(['lake', 'env', 'lean', f], cwd=LEAN, timeout=1200)
@@ -600,7 +620,7 @@ def main():
                 'discharged': discharged if theorems else (1 if ok_lean else 0),
                 'obligation_names': theorems or ['(model builds; property theorems not yet stated for this id)'],
                 'axioms': aud['theorems'],
-                'checker_cmd': f'cd lean && lake build Pearl.Props.{prop} pearl-model && lake env lean <#print axioms of every theorem in Pearl/Props/{prop}.lean>'
+                'checker_cmd': 'python3 tools/rs2lean.py --repo /repo --out lean/Pearl/Gen && cd lean && lake build pearl-model ' + ' '.join(prop_modules(prop)) + ' && lake env lean <#print axioms of every theorem of these modules>'
                                + (' && lake env leanchecker <modules>' if tier == 'thorough' else ''),
                 'trusted_base': TRUSTED_BASE,
                 'modules_audited': aud['modules'],
